@@ -39,6 +39,9 @@ func c05Templates(reduced bool) []c05Tmpl {
 		{"globsib", model.Entry{Src: "etc/con*/*.conf", Type: "config|noreplace"}},
 		{"doc", model.Entry{Src: "doc/manual.txt", Type: "doc"}},
 		{"disklink", model.Entry{Src: "link"}},
+		{"missingok", model.Entry{Src: "etc/empty", Type: "config|missingok"}},
+		{"readme", model.Entry{Src: "doc/README", Type: "readme"}},
+		{"treelinks", model.Entry{Src: "links", Type: "tree"}},
 	}
 	if reduced {
 		return all[:6]
@@ -47,7 +50,7 @@ func c05Templates(reduced bool) []c05Tmpl {
 }
 
 func c05Universe(reduced bool) []model.Entry {
-	dsts := []string{"/a", "/a/", "/a/b", "/a/b/c", "/c", "a", "//a//b/", "/a/./b", "/a/x/../b", "/"}
+	dsts := []string{"/a", "/a/", "/a/b", "/a/b/c", "/c", "a", "//a//b/", "/a/./b", "/a/x/../b", "/", "/a/b/c/d", "b/", "/c/d", "/a/."}
 	tags := []string{"", "deb", "rpm"}
 	if reduced {
 		dsts = []string{"/a", "/a/", "/a/b", "/c", "a", "/a/x/../b"}
